@@ -21,12 +21,13 @@ _CMP = {ast.Eq: operator.eq, ast.NotEq: operator.ne, ast.Lt: operator.lt, ast.Lt
         ast.Is: operator.is_, ast.IsNot: operator.is_not}
 _STR_METHODS = {"startswith", "endswith", "split", "rsplit", "partition", "rpartition", "upper", "lower", "strip", "lstrip",
                 "rstrip", "isdigit", "isalpha", "isupper", "find", "index", "count", "replace", "removeprefix", "removesuffix",
-                "casefold", "isnumeric", "join", "splitlines", "zfill", "title"}
+                "casefold", "isnumeric", "join", "splitlines", "zfill", "title", "ljust", "rjust", "center", "format", "capitalize", "isspace", "isalnum", "expandtabs"}
 _LIST_METHODS = {"index", "count", "copy"}
 _BUILTINS = {"len": len, "int": int, "str": str, "float": float, "abs": abs, "min": min, "max": max, "range": range,
              "bool": bool, "list": list, "tuple": tuple, "set": set, "sorted": sorted, "any": any, "all": all, "sum": sum,
              "enumerate": enumerate, "zip": zip, "reversed": reversed, "ord": ord, "chr": chr, "repr": repr, "dict": dict,
-             "frozenset": frozenset, "round": round, "deque": __import__("collections").deque}
+             "frozenset": frozenset, "round": round, "deque": __import__("collections").deque, "count": __import__("itertools").count, "Counter": __import__("collections").Counter, "defaultdict": __import__("collections").defaultdict,
+             "divmod": divmod, "isinstance": isinstance, "map": map, "filter": filter, "iter": iter, "next": next}
 
 
 def _member(a, b):
@@ -58,6 +59,10 @@ def ceval(e: ast.AST, env: dict, stubs: dict | None = None):
             return env[e.id]
         if e.id in ("True", "False", "None"):
             return {"True": True, "False": False, "None": None}[e.id]
+        if "__pe__" in stubs and e.id in stubs["__pe__"][0].calls:
+            return _Partial(e.id, [], stubs["__pe__"][0])          # a followed function used as a value
+        if "__pe__" in stubs and e.id in _BUILTINS:
+            return _BUILTINS[e.id]                                  # a builtin used as a value (map(sorted, ...))
         raise Unsupported(f"partial evaluation: free name {e.id}")
     if isinstance(e, ast.Attribute) and isinstance(e.ctx, ast.Load):
         # a field of a record made from one of the repository's NamedTuple classes (see PathEval.record_classes)
@@ -68,6 +73,12 @@ def ceval(e: ast.AST, env: dict, stubs: dict | None = None):
             return getattr(b, e.attr)
         if type(b).__name__ == "ConstInst" and e.attr in b.fields:      # a record made by the constant evaluator (model.ConstInst)
             return b.fields[e.attr]
+        if e.attr in getattr(type(b), "__pe_attrs__", ()):
+            return getattr(b, e.attr)
+        if type(b).__name__ == "SampleGraph" and e.attr == "nodes":
+            return b.nodes
+        if type(b).__name__ == "SampleGraph" and e.attr == "edges":
+            return b.edges()
         raise Unsupported(f"partial evaluation: attribute `{norm(e)}`")
     if isinstance(e, ast.BoolOp):
         if isinstance(e.op, ast.And):
@@ -108,7 +119,15 @@ def ceval(e: ast.AST, env: dict, stubs: dict | None = None):
         env[e.target.id] = v
         return v
     if isinstance(e, (ast.Tuple, ast.List, ast.Set)):
-        vals = [ceval(x, env, stubs) for x in e.elts]
+        vals = []
+        for x in e.elts:
+            if isinstance(x, ast.Starred):
+                sv = ceval(x.value, env, stubs)
+                if isinstance(sv, _Unknown):
+                    return sv
+                vals.extend(list(sv))
+            else:
+                vals.append(ceval(x, env, stubs))
         return tuple(vals) if isinstance(e, ast.Tuple) else (set(vals) if isinstance(e, ast.Set) else vals)
     if isinstance(e, ast.Dict):
         out_d = {}
@@ -137,6 +156,8 @@ def ceval(e: ast.AST, env: dict, stubs: dict | None = None):
             else:
                 spec = ceval(p.format_spec, env, stubs) if p.format_spec is not None else ""
                 v = ceval(p.value, env, stubs)
+                if isinstance(v, _Unknown) or isinstance(spec, _Unknown):
+                    return v if isinstance(v, _Unknown) else spec       # a text with an unknown part is an unknown text
                 if p.conversion == 114:
                     v = repr(v)
                 elif p.conversion == 115:
@@ -146,11 +167,21 @@ def ceval(e: ast.AST, env: dict, stubs: dict | None = None):
     if isinstance(e, ast.Call):
         is_pe_call = isinstance(e.func, ast.Name) and "__pe__" in stubs and (e.func.id in stubs["__pe__"][0].calls or e.func.id in getattr(stubs["__pe__"][0], "record_classes", {}))
         is_pe_call = is_pe_call or (isinstance(e.func, ast.Name) and isinstance(env.get(e.func.id), type) and hasattr(env.get(e.func.id), "_fields"))
-        if e.keywords and not is_pe_call and not all(k.arg in ("maxsplit", "sep", "start", "key", "reverse") for k in e.keywords):
+        is_format = isinstance(e.func, ast.Attribute) and e.func.attr == "format"
+        is_format = is_format or (isinstance(e.func, ast.Attribute) and isinstance(e.func.value, ast.Name) and hasattr(type(env.get(e.func.value.id)), "__pe_methods__"))
+        if e.keywords and not is_pe_call and not is_format and not all(k.arg in ("maxsplit", "sep", "start", "key", "reverse", "data", "default") for k in e.keywords):
             raise Unsupported(f"partial evaluation: keyword arguments in `{norm(e)}`")
         kw = {k.arg: ceval(k.value, env, stubs) for k in e.keywords} if not is_pe_call else {}
         if isinstance(e.func, ast.Name) and e.func.id in _BUILTINS and e.func.id not in env:
-            argv = [ceval(a, env, stubs) for a in e.args]
+            argv = []
+            for a in e.args:
+                if isinstance(a, ast.Starred):
+                    sv = ceval(a.value, env, stubs)
+                    if isinstance(sv, _Unknown):
+                        return sv
+                    argv.extend(list(sv))
+                else:
+                    argv.append(ceval(a, env, stubs))
             unk = [a for a in argv if isinstance(a, _Unknown)]
             if unk:
                 g_ = next((a for a in unk if isinstance(a, _GapUnknown)), unk[0])
@@ -163,6 +194,12 @@ def ceval(e: ast.AST, env: dict, stubs: dict | None = None):
             argv = []
             for a in e.args:
                 try:
+                    if isinstance(a, ast.Starred):
+                        sv = ceval(a.value, env, stubs)
+                        if isinstance(sv, _Unknown):
+                            raise Unsupported("partial evaluation: unknown sequence spread into a call")
+                        argv.extend(list(sv))
+                        continue
                     argv.append(ceval(a, env, stubs))
                 except UnknownValue as ex:
                     argv.append(GAP if getattr(ex, "gap", False) else UNKNOWN)
@@ -176,6 +213,28 @@ def ceval(e: ast.AST, env: dict, stubs: dict | None = None):
             return pe.call(e.func.id, argv, st_)
         if isinstance(e.func, ast.Name) and e.func.id in stubs.get("__calls__", {}) and not e.keywords:
             return call_function(e.func.id, [_arg(a, env, stubs) for a in e.args], stubs, env)
+        if "__pe__" in stubs and isinstance(e.func, ast.Name) and e.func.id in ("partial",) and e.func.id not in env and e.args and isinstance(e.args[0], ast.Name) \
+                and e.args[0].id in stubs["__pe__"][0].calls and not e.keywords:
+            # functools.partial over a followed function: the function with its first arguments fixed
+            return _Partial(e.args[0].id, [ceval(a, env, stubs) for a in e.args[1:]], stubs["__pe__"][0])
+        if isinstance(e.func, ast.Name) and getattr(env.get(e.func.id), "__module__", None) in ("_operator", "operator") and callable(env.get(e.func.id)) and not e.keywords:
+            argv = [ceval(a, env, stubs) for a in e.args]
+            if any(isinstance(a, _Unknown) for a in argv):
+                return next(a for a in argv if isinstance(a, _Unknown))
+            return env[e.func.id](*argv)
+        if isinstance(e.func, ast.Name) and isinstance(env.get(e.func.id), _Lambda) and not e.keywords:
+            lam = env[e.func.id]
+            ps_ = [a.arg for a in lam.node.args.args]
+            argv = [ceval(a, env, stubs) for a in e.args]
+            if len(argv) != len(ps_):
+                raise Unsupported("partial evaluation: lambda called with other than its positional parameters")
+            env_l = dict(lam.env)
+            env_l.update(zip(ps_, argv))
+            return ceval(lam.node.body, env_l, stubs)
+        if "__pe__" in stubs and isinstance(e.func, ast.Name) and isinstance(env.get(e.func.id), _Partial) and not e.keywords:
+            pt = env[e.func.id]
+            pe, st_ = stubs["__pe__"]
+            return pe.call(pt.name, list(pt.args) + [ceval(a, env, stubs) for a in e.args], st_)
         if isinstance(e.func, ast.Name) and e.func.id in env and isinstance(env[e.func.id], type) and issubclass(env[e.func.id], tuple) and hasattr(env[e.func.id], "_fields"):
             # `cls(...)` inside a classmethod of a record class
             return env[e.func.id](*[ceval(a, env, stubs) for a in e.args], **{k.arg: ceval(k.value, env, stubs) for k in e.keywords})
@@ -197,6 +256,12 @@ def ceval(e: ast.AST, env: dict, stubs: dict | None = None):
             for a in e.args:
                 _arg(a, env, stubs)
             return Opaque(e.func.id)
+        if isinstance(e.func, ast.Attribute) and isinstance(e.func.value, ast.Name) and e.func.value.id == "chain" and "chain" not in env and e.func.attr == "from_iterable" and len(e.args) == 1:
+            import itertools as _it
+            arg = ceval(e.args[0], env, stubs)
+            if isinstance(arg, _Unknown):
+                return arg
+            return list(_it.chain.from_iterable(arg))
         if isinstance(e.func, ast.Attribute) and isinstance(e.func.value, ast.Name) and e.func.value.id == "re" and "re" not in env \
                 and e.func.attr in ("findall", "match", "fullmatch", "search", "split", "sub", "compile", "finditer"):
             import re as _re
@@ -214,12 +279,19 @@ def ceval(e: ast.AST, env: dict, stubs: dict | None = None):
                 return UNKNOWN
             if isinstance(recv, ContextDefault) and m == "get" and not e.args:
                 return recv.default
+            if m in getattr(type(recv), "__pe_methods__", ()):
+                # a sample object of the evaluator's own (SampleGraph): its methods are plain Python
+                return getattr(recv, m)(*[ceval(a, env, stubs) for a in e.args], **{k.arg: ceval(k.value, env, stubs) for k in e.keywords})
             if isinstance(recv, _Unknown):
                 for a in e.args:
                     _arg(a, env, stubs)
                 return recv
             if isinstance(recv, str) and m in _STR_METHODS:
-                return getattr(recv, m)(*[ceval(a, env, stubs) for a in e.args], **kw)
+                argv = [ceval(a, env, stubs) for a in e.args]
+                unk = [a for a in argv + list(kw.values()) if isinstance(a, _Unknown) or (isinstance(a, (list, tuple)) and any(isinstance(x_, _Unknown) for x_ in a))]
+                if unk:
+                    return unk[0] if isinstance(unk[0], _Unknown) else next(x_ for x_ in unk[0] if isinstance(x_, _Unknown))
+                return getattr(recv, m)(*argv, **kw)
             if isinstance(recv, (list, tuple)) and m in _LIST_METHODS:
                 return getattr(recv, m)(*[ceval(a, env, stubs) for a in e.args])
             if isinstance(recv, dict) and m in ("get", "keys", "values", "items"):
@@ -235,9 +307,29 @@ def ceval(e: ast.AST, env: dict, stubs: dict | None = None):
                     return next(a for a in argv if isinstance(a, _Unknown))
                 r_ = getattr(recv, m)(*argv)
                 return list(r_) if m in ("findall", "split") else r_
+            import datetime as _dtm
+            if isinstance(recv, _dtm.datetime) and m in ("strftime", "isoformat", "timestamp"):
+                return getattr(recv, m)(*[ceval(a, env, stubs) for a in e.args])
             if isinstance(recv, _re.Match) and m in ("group", "groups", "start", "end", "span", "groupdict"):
                 return getattr(recv, m)(*[ceval(a, env, stubs) for a in e.args])
         raise Unsupported(f"partial evaluation: call `{norm(e)}`")
+    if isinstance(e, ast.Lambda):
+        return _Lambda(e, dict(env), stubs)
+    if isinstance(e, ast.DictComp):
+        out_dc = {}
+
+        def rec_dc(i, env_):
+            if i == len(e.generators):
+                out_dc[ceval(e.key, env_, stubs)] = ceval(e.value, env_, stubs)
+                return
+            g = e.generators[i]
+            for item in ceval(g.iter, env_, stubs):
+                env2 = dict(env_)
+                _bind(g.target, item, env2)
+                if all(ceval(c, env2, stubs) for c in g.ifs):
+                    rec_dc(i + 1, env2)
+        rec_dc(0, dict(env))
+        return out_dc
     if isinstance(e, (ast.ListComp, ast.GeneratorExp, ast.SetComp)):
         out = []
 
@@ -370,6 +462,34 @@ class _Unknown:
 
 
 UNKNOWN = _Unknown()
+
+
+class _Lambda:
+    """a lambda expression with the names it can see; callable, so that it can serve as a sort key"""
+
+    def __init__(self, node, env, stubs=None):
+        self.node, self.env, self.stubs = node, env, stubs
+
+    def __call__(self, *args):
+        ps_ = [a.arg for a in self.node.args.args]
+        if len(args) != len(ps_):
+            raise Unsupported("partial evaluation: lambda called with other than its positional parameters")
+        env_l = dict(self.env)
+        env_l.update(zip(ps_, args))
+        return ceval(self.node.body, env_l, self.stubs)
+
+
+class _Partial:
+    """functools.partial(<followed function>, *args); also a followed function used as a value (no fixed arguments).
+    Callable from plain Python (a sort key) when it knows its evaluator."""
+
+    def __init__(self, name, args, pe=None):
+        self.name, self.args, self.pe = name, args, pe
+
+    def __call__(self, *args):
+        if self.pe is None:
+            raise Unsupported("partial evaluation: function value called outside the evaluator")
+        return self.pe.call(self.name, list(self.args) + list(args), PState({}))
 
 
 class ContextDefault:
@@ -725,7 +845,7 @@ class PathEval:
     merged.  Containers are shared by reference (a helper that fills its argument fills the caller's object).  Calls of
     registered repository functions are followed; what cannot be read is recorded in `gaps` and yields an unread value."""
 
-    MUTATORS = {"append", "add", "update", "extend", "setdefault", "pop", "clear", "insert", "remove", "discard", "popleft", "appendleft", "sort", "reverse"}
+    MUTATORS = {"append", "add", "update", "extend", "setdefault", "pop", "clear", "insert", "remove", "discard", "popleft", "appendleft", "extendleft", "sort", "reverse"}
 
     def __init__(self, calls: dict, limit: int = 256):
         self.calls = calls
@@ -798,6 +918,9 @@ class PathEval:
             j = len(ps) - len(dflt)
             k = len(args) + i_
             env2[p_] = self.ev(dflt[k - j], PState(dict(base))) if k >= j else UNKNOWN
+        for a_, d_ in zip(fnode.args.kwonlyargs, fnode.args.kw_defaults):
+            if a_.arg not in env2:
+                env2[a_.arg] = self.ev(d_, PState(dict(base))) if d_ is not None else UNKNOWN
         is_gen = any(isinstance(x, (ast.Yield, ast.YieldFrom)) for x in ast.walk(fnode))
         sub = PState(env2, set(s.trace), [] if is_gen else None)
         self.depth += 1
@@ -873,6 +996,11 @@ class PathEval:
         elif isinstance(target, (ast.Tuple, ast.List)):
             try:
                 vals = list(v)
+                stars = [i for i, t_ in enumerate(target.elts) if isinstance(t_, ast.Starred)]
+                if len(stars) == 1 and len(vals) >= len(target.elts) - 1:
+                    i = stars[0]
+                    after = len(target.elts) - i - 1
+                    vals = vals[:i] + [vals[i:len(vals) - after]] + vals[len(vals) - after:]
                 if len(vals) != len(target.elts):
                     raise ValueError
             except (NameError, UnboundLocalError):
@@ -991,7 +1119,7 @@ class PathEval:
             it = self.ev(node.iter, s, f"loop over `{norm(node.iter)[:40]}`")
             self._poison(s)
             try:
-                items = None if isinstance(it, _Unknown) else list(it)
+                items = None if isinstance(it, _Unknown) or type(it).__name__ in ("count", "cycle", "repeat") else list(it)
             except (NameError, UnboundLocalError):
                 raise
             except Exception:
@@ -1155,6 +1283,16 @@ class PathEval:
                 if it.optional_vars is not None:
                     self._store(it.optional_vars, v, s)
             return self.block(node.body, [s])
+        if isinstance(node, ast.FunctionDef) and not node.decorator_list:
+            # a local function: followed like the others, seeing the names of the enclosing function as they are now and later
+            # (the environment is shared, not copied)
+            key = f"<local {node.name} @{node.lineno}>"
+            self.calls[key] = (node, s.env)
+            s.env[node.name] = _Partial(key, [], self)
+            return [s], []
+        if isinstance(node, (ast.Import, ast.ImportFrom, ast.Global, ast.Nonlocal)):
+            self.gap(f"{type(node).__name__} statement")
+            return [s], []
         self.gap(f"{type(node).__name__} statement")
         for nm in _stored_names(node):
             s.env[nm] = GAP
@@ -1188,3 +1326,270 @@ def record_class_of(cls_node: ast.ClassDef):
     if not fields:
         return None
     return collections.namedtuple(cls_node.name, fields, defaults=defaults or None)
+
+
+class _NodeData(list):
+    """networkx's NodeDataView: iterates as (node, value) pairs, looks a node's value up with [node]"""
+
+    def __getitem__(self, k):
+        if isinstance(k, slice):
+            raise TypeError("NodeDataView does not support slicing")
+        for n, v in self:
+            if n == k:
+                return v
+        raise KeyError(k)
+
+
+class SampleGraph:
+    """a molecule graph for the sample evaluator: the part of the networkx Graph interface that the library's pure-Python code
+    uses (nodes / edges with data, counts, neighbours, copy, adding nodes and edges), over plain tables.  Node and edge order
+    is insertion order; an edge is reported from the endpoint that was inserted as a node first, as networkx does."""
+    __pe_methods__ = ("nodes", "edges", "number_of_nodes", "number_of_edges", "neighbors", "degree", "has_edge", "has_node", "order", "size", "copy",
+                      "add_node", "add_nodes_from", "add_edge", "add_edges_from")
+    __pe_attrs__ = ("adj",)
+
+    @property
+    def adj(self):
+        return self._adj
+
+    class _NodeView:
+        __pe_methods__ = ("data", "items", "keys", "values", "get")
+
+        def __init__(self, g):
+            self.g = g
+
+        def __iter__(self):
+            return iter(self.g._nodes)
+
+        def __len__(self):
+            return len(self.g._nodes)
+
+        def __getitem__(self, n):
+            return self.g._nodes[n]
+
+        def __contains__(self, n):
+            return n in self.g._nodes
+
+        def __call__(self, data=False, default=None):
+            return self.data(data, default)
+
+        def data(self, data=True, default=None):
+            if data is True:
+                return _NodeData(list(self.g._nodes.items()))
+            if data is False:
+                return list(self.g._nodes)
+            return _NodeData([(n, d.get(data, default)) for n, d in self.g._nodes.items()])
+
+        def items(self):
+            return list(self.g._nodes.items())
+
+        def keys(self):
+            return list(self.g._nodes)
+
+        def values(self):
+            return list(self.g._nodes.values())
+
+        def get(self, n, default=None):
+            return self.g._nodes.get(n, default)
+
+    def __init__(self, nodes: dict | None = None, edges: list | None = None):
+        self._nodes = {}
+        self._adj = {}
+        for n, d in (nodes or {}).items():
+            self.add_node(n, **d)
+        for a, b, d in (edges or []):
+            self.add_edge(a, b, **d)
+
+    def __getattr__(self, name):
+        if name == "nodes":
+            return SampleGraph._NodeView(self)
+        raise AttributeError(name)
+
+    def __iter__(self):
+        return iter(self._nodes)
+
+    def __len__(self):
+        return len(self._nodes)
+
+    def __contains__(self, n):
+        return n in self._nodes
+
+    def __getitem__(self, n):
+        return self._adj[n]
+
+    def add_node(self, n, **attr):
+        if n not in self._nodes:
+            self._nodes[n] = {}
+            self._adj[n] = {}
+        self._nodes[n].update(attr)
+
+    def add_nodes_from(self, it, **attr):
+        for x in it:
+            if isinstance(x, tuple) and len(x) == 2 and isinstance(x[1], dict):
+                self.add_node(x[0], **{**attr, **x[1]})
+            else:
+                self.add_node(x, **attr)
+
+    def add_edge(self, a, b, **attr):
+        self.add_node(a)
+        self.add_node(b)
+        d = self._adj[a].get(b, {})
+        d.update(attr)
+        self._adj[a][b] = d
+        self._adj[b][a] = d
+
+    def add_edges_from(self, it, **attr):
+        for x in it:
+            if len(x) == 3:
+                self.add_edge(x[0], x[1], **{**attr, **x[2]})
+            else:
+                self.add_edge(x[0], x[1], **attr)
+
+    def _edge_list(self):
+        seen, out = set(), []
+        for a in self._nodes:
+            for b, d in self._adj[a].items():
+                if (b, a) not in seen:
+                    seen.add((a, b))
+                    out.append((a, b, d))
+        return out
+
+    def edges(self, data=False, default=None):
+        if data is True:
+            return list(self._edge_list())
+        if data is False:
+            return [(a, b) for a, b, _d in self._edge_list()]
+        return [(a, b, d.get(data, default)) for a, b, d in self._edge_list()]
+
+    def number_of_nodes(self):
+        return len(self._nodes)
+
+    def order(self):
+        return len(self._nodes)
+
+    def number_of_edges(self):
+        return len(self._edge_list())
+
+    def size(self):
+        return len(self._edge_list())
+
+    def neighbors(self, n):
+        return list(self._adj[n])
+
+    def degree(self, n):
+        return len(self._adj[n])
+
+    def has_edge(self, a, b):
+        return a in self._adj and b in self._adj[a]
+
+    def has_node(self, n):
+        return n in self._nodes
+
+    def copy(self):
+        g = SampleGraph()
+        for n, d in self._nodes.items():
+            g.add_node(n, **d)
+        for a, b, d in self._edge_list():
+            g.add_edge(a, b, **d)
+        return g
+
+
+class SampleNx:
+    """the functions of the `networkx` namespace that the library's pure-Python code calls, over SampleGraph"""
+    __pe_methods__ = ("Graph", "relabel_nodes", "set_node_attributes", "get_node_attributes", "set_edge_attributes", "get_edge_attributes",
+                      "convert_node_labels_to_integers", "density", "connected_components", "number_connected_components", "is_connected")
+
+    def Graph(self, incoming=None):
+        return incoming.copy() if isinstance(incoming, SampleGraph) else SampleGraph()
+
+    def relabel_nodes(self, g, mapping, copy=True):
+        if copy is not True:
+            raise Unsupported("partial evaluation: relabel_nodes(copy=False) is not modelled")
+        f = mapping if callable(mapping) else (lambda n: mapping.get(n, n))
+        h = SampleGraph()
+        for n, d in g._nodes.items():
+            h.add_node(f(n), **d)
+        for a, b, d in g._edge_list():
+            h.add_edge(f(a), f(b), **d)
+        return h
+
+    def convert_node_labels_to_integers(self, g, first_label=0, ordering="default"):
+        if ordering != "default":
+            raise Unsupported("partial evaluation: convert_node_labels_to_integers ordering")
+        return self.relabel_nodes(g, {n: i + first_label for i, n in enumerate(g._nodes)})
+
+    def set_node_attributes(self, g, values, name=None):
+        if name is not None:
+            if isinstance(values, dict):
+                for n, v in values.items():
+                    if n in g._nodes:
+                        g._nodes[n][name] = v
+            else:
+                for n in g._nodes:
+                    g._nodes[n][name] = values
+        else:
+            for n, d in values.items():
+                if n in g._nodes:
+                    g._nodes[n].update(d)
+
+    def get_node_attributes(self, g, name, default=None):
+        return {n: d[name] for n, d in g._nodes.items() if name in d}
+
+    def set_edge_attributes(self, g, values, name=None):
+        for (a, b), v in (values.items() if isinstance(values, dict) else [((a, b), values) for a, b, _ in g._edge_list()]):
+            if g.has_edge(a, b):
+                if name is not None:
+                    g._adj[a][b][name] = v
+                else:
+                    g._adj[a][b].update(v)
+
+    def get_edge_attributes(self, g, name):
+        return {(a, b): d[name] for a, b, d in g._edge_list() if name in d}
+
+    def density(self, g):
+        n, m = len(g._nodes), len(g._edge_list())
+        return 0 if n < 2 else 2 * m / (n * (n - 1))
+
+    def connected_components(self, g):
+        seen, out = set(), []
+        for n in g._nodes:
+            if n in seen:
+                continue
+            comp, work = set(), [n]
+            while work:
+                x = work.pop()
+                if x in comp:
+                    continue
+                comp.add(x)
+                work.extend(g._adj[x])
+            seen |= comp
+            out.append(comp)
+        return out
+
+    def number_connected_components(self, g):
+        return len(self.connected_components(g))
+
+    def is_connected(self, g):
+        return len(self.connected_components(g)) == 1
+
+
+class SampleClock:
+    """`datetime` for the sample evaluator: now() is a fixed instant"""
+    __pe_methods__ = ("now", "strftime", "today", "utcnow")
+    __pe_attrs__ = ("datetime",)
+
+    def __init__(self):
+        import datetime as _dt
+        self._t = _dt.datetime(2001, 2, 3, 4, 5, 6)
+        self.datetime = self
+
+    def now(self, tz=None):
+        return self._t
+
+    today = utcnow = now
+
+
+class SamplePackage:
+    """the `tucan` package object for the sample evaluator: only its version string"""
+    __pe_attrs__ = ("__version__",)
+    __version__ = "9.8.7"
